@@ -342,8 +342,15 @@ def fetchSub (p : Parsed) (recs : List Rec) (newname : Option (List Char)) (key 
 
 def dnaTextOk (rs : List Rec) : Bool := rs.all fun r => !r.seq.isEmpty && r.seq.all fun c => dnaTextSyms.contains c && c.isAlpha
 
-def runSfetch (argv : List String) (files : String → Option (List Char)) : Option String := do
-  let p ← parseArgs ["-r", "-f", "-C", "--index"] ["-n", "-c", "--informat"] argv {}
+def runSfetchFull (argv : List String) (files : String → Option (List Char)) : Option (String × List (String × List Char)) := do
+  let p ← parseArgs ["-r", "-f", "-C", "--index", "-O"] ["-n", "-c", "--informat", "-o"] argv {}
+  if p.has "-O" && ((p.val? "-o").isSome || p.has "-f") then none
+  -- output goes to a file with -o <f> / -O (file named after the key); stdout then only carries the "Retrieved …" note
+  let wrap (note : String) (content : String) : Option (String × List (String × List Char)) :=
+    match p.val? "-o", p.has "-O" with
+    | some f, _ => some (note, [(f, content.toList)])
+    | none, true => (p.pos[1]?).map fun k => (note, [(k, content.toList)])
+    | none, false => some (content, [])
   match p.val? "--informat" with
   | some f => if f != "fasta" then none
   | none => pure ()
@@ -354,7 +361,8 @@ def runSfetch (argv : List String) (files : String → Option (List Char)) : Opt
   if p.has "--index" then
     if p.pos.length != 1 || p.has "-r" || p.has "-f" || p.has "-C" || !p.vals.isEmpty then none
     let n := toString recs.length
-    some ("Creating SSI index for " ++ fn ++ "...    done.\nIndexed " ++ n ++ " sequences (" ++ n ++ " names).\nSSI index written to file " ++ fn ++ ".ssi\n")
+    if (p.val? "-o").isSome || p.has "-O" then none
+    some ("Creating SSI index for " ++ fn ++ "...    done.\nIndexed " ++ n ++ " sequences (" ++ n ++ " names).\nSSI index written to file " ++ fn ++ ".ssi\n", [])
   else
     let _ ← files (fn ++ ".ssi")
     if (p.has "-r" || (p.val? "-c").isSome || p.has "-C") && !dnaTextOk recs then none
@@ -367,20 +375,22 @@ def runSfetch (argv : List String) (files : String → Option (List Char)) : Opt
         let outs ← toks.mapM fun t => do
           let [nn, a, b, src] := t | none
           fetchSub p recs (some nn.toList) src.toList (← a.toNat?) (← b.toNat?)
-        some (String.ofList outs.flatten)
+        wrap "" (String.ofList outs.flatten)
       else
         let keys ← toks.mapM fun t => (match t with | [k] => some k.toList | _ => none)
         if keys.eraseDups.length != keys.length then none
         let outs ← keys.mapM fun k => fetchOne p f recs k
-        some (String.ofList outs.flatten)
+        wrap ("\nRetrieved " ++ toString keys.length ++ " sequences.\n") (String.ofList outs.flatten)
     else
       if p.has "-C" then none
       match p.val? "-c" with
       | some c =>
         let [a, b] := c.splitOn ".." | none
         let o ← fetchSub p recs ((p.val? "-n").map String.toList) arg2.toList (← a.toNat?) (← b.toNat?)
-        some (String.ofList o)
-      | none => (fetchOne p f recs arg2.toList).map String.ofList
+        wrap ("\n\nRetrieved subsequence " ++ arg2 ++ "/" ++ a ++ "-" ++ b ++ ".\n") (String.ofList o)
+      | none =>
+        let o ← fetchOne p f recs arg2.toList
+        wrap ("\n\nRetrieved sequence " ++ arg2 ++ ".\n") (String.ofList o)
 
 /-- esl-translate [-c id] [-l n] [-m | -M] [--watson | --crick] --informat fasta <fasta> -/
 def runTranslate (argv : List String) (files : String → Option (List Char)) : Option String := do
@@ -395,6 +405,15 @@ def runTranslate (argv : List String) (files : String → Option (List Char)) : 
   if recs.isEmpty then none
   translateText { code := code, minlen := minlen, onlyAUG := p.has "-m", tableInit := p.has "-M",
                   watson := !p.has "--crick", crick := !p.has "--watson", windows := p.has "-W" } recs
+
+def runSfetch (argv : List String) (files : String → Option (List Char)) : Option String :=
+  (runSfetchFull argv files).map (·.1)
+
+/-- files a successful invocation leaves behind (only esl-sfetch -o / -O are modelled) -/
+def filesWritten (tool : String) (argv : List String) (files : String → Option (List Char)) : List (String × List Char) :=
+  match tool with
+  | "esl-sfetch" => ((runSfetchFull argv files).map (·.2)).getD []
+  | _ => []
 
 def runTool (tool : String) (argv : List String) (files : String → Option (List Char)) : Option String :=
   match tool with
